@@ -737,6 +737,24 @@ def judge_grid(ns, ctx, case, aspects):
                 ok = ctx.ratio('C02.grid-roundtrip', max(dE, dN), TOL_EN)
                 if not ok or (h2.lower() != hemi.lower() and lat != 0):
                     ctx.violation('grid-roundtrip', case, {'back': [h2, z2, e2, n2], 'dE': dE, 'dN': dN})
+        # the same inverse through the coordinate class, in one of the six notations
+        if not case.get('rep') and all(type(v) is float for v in (east, north)) and type(zone) is int:
+            NOT = ['float', 'DECAngle', 'HPAngle', 'GONAngle', 'DMSAngle', 'DDMAngle']
+            nt = NOT[int(core.stable_hash(['tmgeo', case.get('zone'), case.get('east'), case.get('north')]), 16) % 6]
+            ncl = float if nt == 'float' else getattr(ns.angles, nt)
+            with warnings.catch_warnings():
+                warnings.simplefilter('ignore')
+                try:
+                    g = ns.coord.CoordTM(zone, east, north, hemi_north=not south, projection=prj).geo(ell, ncl)
+                    ctx.count('inverse_through_coordinate_class')
+                    from .oracles import angle as _ax
+                    dla, dlo = _ax.denote(g.lat), _ax.denote(g.lon)
+                    tn = 'float' if type(g.lat) is float else type(g.lat).__name__
+                    if tn != nt or dla is None or dlo is None or max(abs(float(dla) - lat), abs(float(dlo) - lon)) > 1e-11 \
+                            or _ax.float_value_mismatch(g.lat) or _ax.float_value_mismatch(g.lon):
+                        ctx.violation('object-inverse-differs:' + nt, case, {'object': [repr(g.lat), repr(g.lon)], 'function': [lat, lon], 'notation': nt})
+                except Exception as e:
+                    ctx.violation('object-inverse-exception', case, {'exception': repr(e), 'notation': nt})
         # mirror image in the other hemisphere
         if south:
             n_m = fn - north
